@@ -35,7 +35,8 @@ def ll_case(draw, folded=None):
     kind = draw(st.sampled_from(['integer', 'integer', 'projected', 'float']))
     return dict(shape=shape, data=d['data'], dmask=d['mask'], seed=rs_seed, mmask_p=mmask_p, kind=kind,
                 folded=draw(st.booleans()) if folded is None else folded,
-                model_corners=draw(st.booleans()), scale=draw(st.floats(0.01, 100.0)))
+                model_corners=draw(st.booleans()), scale=draw(st.floats(0.01, 100.0)),
+                layout=draw(st.sampled_from(['C', 'C', 'F', 'view'])), layout_model=draw(st.sampled_from(['C', 'C', 'F', 'view'])))
 
 
 def build(case):
@@ -106,9 +107,9 @@ def r1(case, rec):
         emmask.flat[0] = True      # dadi's fold() masks the absent corner (constructor default)
         edata, edmask = fd, fdm
     else:
-        dfs = dadi.Spectrum(data, mask=dmask, mask_corners=False)
+        dfs = gens.relayout(dadi.Spectrum(data, mask=dmask, mask_corners=False), case.get('layout', 'C'))
         emodel, emmask, edata, edmask = model, mmask, data, dmask
-    mfs = dadi.Spectrum(model, mask=mmask, mask_corners=False)
+    mfs = gens.relayout(dadi.Spectrum(model, mask=mmask, mask_corners=False), case.get('layout_model', case.get('layout', 'C')))
     joint = emmask | edmask
     rec.case(case, _nt(case, dmask, mmask), ['dim=%d' % model.ndim, case['kind'], 'folded' if folded else 'unfolded',
                                              'masks differ' if (dmask != mmask).any() else 'masks equal'])
@@ -237,9 +238,9 @@ def r3(case, rec):
         emmask.flat[0] = True
         edata, edmask = fd, fdm
     else:
-        dfs = dadi.Spectrum(data, mask=dmask, mask_corners=False)
+        dfs = gens.relayout(dadi.Spectrum(data, mask=dmask, mask_corners=False), case.get('layout', 'C'))
         emodel, emmask, edata, edmask = model, mmask, data, dmask
-    mfs = dadi.Spectrum(model, mask=mmask, mask_corners=False)
+    mfs = gens.relayout(dadi.Spectrum(model, mask=mmask, mask_corners=False), case.get('layout_model', case.get('layout', 'C')))
     joint = emmask | edmask
     cut = case['cut']
     rec.case(case, _nt(case, dmask, mmask), ['cut=%s' % cut, 'folded' if folded else 'unfolded'])
